@@ -69,7 +69,17 @@ BetweenTail == <<EndEv, ComEv, [a |-> "BeginBlock", dt |-> 1000],
                  [a |-> "BeginBlock", dt |-> 1000], EndEv, ComEv>>
 BetweenVariants == { [EntNom EXCEPT !.min = 1, !.denom = d] : d \in {"nund", "other"} }
                    \cup { [signers |-> <<"A4">>, min |-> 1, limit |-> 1, denom |-> "nund"], [signers |-> <<"A1", "A2", "A4">>, min |-> 3, limit |-> 9, denom |-> "nund"] }
+\* transactions admitted to the mempool with the exact fee BEFORE a fee change and still pending when it takes effect:
+\* mempool admission is re-run on them after every block (recheck mode)
+Pending == << [a |-> "CheckTx", keep |-> TRUE, msgs |-> <<WReg("A2")>>, fee |-> [nund |-> 4]],
+             [a |-> "CheckTx", keep |-> TRUE, msgs |-> <<BReg("A3")>>, fee |-> [nund |-> 4]],
+             [a |-> "CheckTx", keep |-> TRUE, msgs |-> <<[t |-> "WRec", owner |-> "A1", id |-> 1, h |-> 5, bh |-> "b", ph |-> "", h1 |-> "", h2 |-> "", h3 |-> ""], [t |-> "WBuy", owner |-> "A1", id |-> 1, n |-> 2]>>, fee |-> [nund |-> 3]] >>
+RecheckTail == Pending \o <<EndEv, ComEv, [a |-> "Recheck"], [a |-> "BeginBlock", dt |-> 2000], EndEv, ComEv, [a |-> "Recheck"],
+                            [a |-> "BeginBlock", dt |-> 1000], EndEv, ComEv, [a |-> "Recheck"]>>
+FeeUpdates == { <<k, [RegNom EXCEPT !.feeReg = a, !.feeRec = b, !.feePur = c, !.def = 2, !.max = 4]>> :
+                  k \in {"wrk", "bcn"}, <<a, b, c>> \in { <<4, 1, 1>>, <<5, 1, 1>>, <<3, 1, 1>>, <<4, 2, 1>>, <<4, 1, 2>> } }
 Choices == { [ev |-> GovTxFor(st, u[1], u[2]), tail |-> ScriptTail] : u \in Updates }
+           \cup { [ev |-> GovTxFor(st, u[1], u[2]), tail |-> RecheckTail] : u \in FeeUpdates }
            \cup { [ev |-> GovTxFor(st, "ent", p), tail |-> BetweenTail] : p \in BetweenVariants }
 Init == /\ st = StateOf(Gen) /\ hist = <<[a |-> "InitChain", g |-> Gen]>> /\ todo = Prefix /\ phase = "prefix" /\ nTx = 0
 Run == /\ todo # <<>> /\ ~st.halted
